@@ -481,6 +481,11 @@ theorem invL_step {s s' : St} (a : Actor) (h : InvL s) (hs : step s a = some s')
     split at hs
     · cases hs; exact ⟨h.cond_iff, h.recv_iff, h.waiter_pc, h.waiters_nodup, h.wake⟩
     · cases hs
+  | peerDup q exc v =>
+    simp only [step] at hs
+    split at hs
+    · cases hs; exact ⟨h.cond_iff, h.recv_iff, h.waiter_pc, h.waiters_nodup, h.wake⟩
+    · cases hs
   | peerEof =>
     simp only [step] at hs
     split at hs
@@ -694,6 +699,11 @@ theorem invD_step {s s' : St} (a : Actor) (h : InvD s) (hs : step s a = some s')
     · cases hs
   | run t => exact invD_run h hs
   | peer q exc v =>
+    simp only [step] at hs
+    split at hs
+    · cases hs; exact h
+    · cases hs
+  | peerDup q exc v =>
     simp only [step] at hs
     split at hs
     · cases hs; exact h
